@@ -227,7 +227,7 @@ def _decorate(draw, ps, staffless):
                 n["voice"] = vmap.get(n["voice"], n["voice"])
     # more voices than the generator's three (up to seven in one part, so also more than four on one
     # staff): extra notes in new voices, placed on existing time points (merge_parts is slow per time point)
-    if draw(st.integers(0, 2)) == 0:
+    if draw(st.sampled_from([False, False, False, True])):
         src = [n for n in ps["notes"] if n["kind"] == "note" and not n.get("tie_next") and not n.get("tie_prev")]
         if src:
             top = max(n["voice"] for n in ps["notes"])
@@ -346,9 +346,10 @@ def merge_spec(draw, tier):
         parts.append(draw(derived_part(base, d, prof, "P%d" % k, "abcd"[k] + "x")))
     # nothing requires part ids to be unique (parts built one by one, or taken from different
     # scores, commonly share one): a fifth of the cases repeat an id
-    if draw(st.integers(0, 4)) == 0:
+    if draw(st.integers(0, 3)) == 0:
+        sure = draw(st.integers(1, n - 1))
         for k in range(1, n):
-            if draw(st.booleans()):
+            if k == sure or draw(st.booleans()):
                 parts[k]["id"] = parts[draw(st.integers(0, k - 1))]["id"]
     reassign = draw(st.sampled_from(MODES))
     # auto mode can only be judged on "tidy" parts (see tidy_part): make those the majority there
@@ -358,7 +359,7 @@ def merge_spec(draw, tier):
         draw(_decorate(ps, staffless))
     silent = None
     if not tidy and draw(st.integers(0, 11)) == 0:
-        silent = draw(st.integers(0, n - 1))
+        silent = draw(st.sampled_from(list(range(n))))
         if draw(st.integers(0, 2)) == 0:
             empty_part(parts[silent])
         else:
@@ -408,6 +409,24 @@ def single_spec(draw, tier):
     ps = draw(G.part_spec(prof, pid="P0", note_prefix="a"))
     draw(_decorate(ps, draw(st.sampled_from(["none", "some", "all"]))))
     return {"parts": [ps], "container": draw(st.sampled_from(SINGLE_CONTAINERS)), "groups": None, "reassign": draw(st.sampled_from(MODES))}
+
+
+@st.composite
+def file_spec(draw, tier):
+    """Score to be written to a file and read back with load_score_as_part: one part, or a merge case with
+    unique part ids (they name the parts in the file), every staff number given and at least one note per part."""
+    if draw(st.integers(0, 5)) == 0:
+        spec = draw(single_spec(tier))
+    else:
+        spec = draw(merge_spec(tier))
+    for k, ps in enumerate(spec["parts"]):
+        ps["id"] = "P%d" % k
+        if not any(x["kind"] == "note" for x in ps["notes"]):
+            ps["notes"].append({"id": "fill%d" % k, "kind": "note", "t": 0, "dur": ps["measures"][0][1], "step": "C", "alter": 0, "octave": 4,
+                                "voice": 1, "staff": 1, "sym": None})
+        tidy_part(ps)
+    return {"parts": spec["parts"], "groups": spec["groups"] if spec["container"].endswith("nested") or spec["container"].startswith("group") else None,
+            "alias": draw(st.booleans())}
 
 
 # --------------------------------------------------------------------------
